@@ -32,6 +32,9 @@ pub struct Bus {
     pub responder: Responder,
     /// when true, `await_irq` returns Pending forever (cancellation tests)
     pub irq_pending: bool,
+    /// told the written bytes of every successful transaction that contains a write operation (chips whose
+    /// responses come in a separate transaction: LR11xx)
+    pub on_write: Option<Box<dyn FnMut(&[u8])>>,
 }
 
 impl Bus {
@@ -41,6 +44,7 @@ impl Bus {
             fail_at: None,
             responder: Box::new(|_, r| r.fill(0)),
             irq_pending: false,
+            on_write: None,
         }))
     }
     fn fails(&self) -> bool {
@@ -69,9 +73,13 @@ impl SpiDevice<u8> for MockSpi {
         let fails = bus.fails();
         let mut w: Vec<u8> = Vec::new();
         let mut rd: Vec<u8> = Vec::new();
+        let mut wrote = false;
         for op in operations.iter_mut() {
             match op {
-                Operation::Write(b) => w.extend_from_slice(b),
+                Operation::Write(b) => {
+                    wrote = true;
+                    w.extend_from_slice(b)
+                }
                 Operation::Read(b) => {
                     if !fails {
                         (bus.responder)(&w, b);
@@ -96,6 +104,11 @@ impl SpiDevice<u8> for MockSpi {
                     rd.extend_from_slice(b);
                 }
                 Operation::DelayNs(_) => {}
+            }
+        }
+        if wrote && !fails {
+            if let Some(f) = bus.on_write.as_mut() {
+                f(&w);
             }
         }
         bus.log.push(BusEv::Spi { w, r: rd, ok: !fails });
